@@ -462,7 +462,10 @@ def discharge(F, s, ctxinfo):
     fn = s["fn"]
     args = arg_terms(s)
     # --- interpolation group
-    if INTERP + "interp::" in fn or fn.startswith("<" + INTERP + "interp::") or fn == INTERP + "utils::find_nearest_index":
+    # (new helpers of utils:: that only find_nearest_index calls — e.g. its bisection written as a recursion — belong to the group:
+    # C14.R5, run below, decides them together with their caller)
+    helper_of_fni = fn.startswith(INTERP + "utils::") and fn not in known_functions() and {short_fn_name(x) for x in F.callers_index().get(fn, set()) if x != fn} <= {"utils::find_nearest_index"}
+    if INTERP + "interp::" in fn or fn.startswith("<" + INTERP + "interp::") or fn == INTERP + "utils::find_nearest_index" or helper_of_fni:
         return "interpolation group: only entered through InterpolationSpeedGradeModel::predict with the point clamped into the validated grid (C14.R1/R4/R5 run below); axes with >= 2 points are configuration"
     if kind == "assert" and t.get("msg") == "BoundsCheck" and _grid_overlay_site(F, s, ""):
         return "grid-search overlay group: option_lists[axis][choice] on a slice parameter (see the Index form of the same rule)"
@@ -1021,6 +1024,12 @@ def R2_loops(ctx):
     for comp in sccs:
         names = sorted(short_fn_name(x) for x in comp)
         inst = "recursion:" + "+".join(names)[:120]
+        if len(comp) == 1 and list(comp)[0].startswith(INTERP + "utils::") and list(comp)[0] not in known_functions():
+            # the bisection of find_nearest_index written as a tail recursion: C14.R5 (run in R1 as part of the interpolation
+            # group) checks that every call shrinks [low, high) and stops at low >= high
+            okb, whyb = _rc_bisect(F, F.bodies[list(comp)[0]], None, None, None)
+            ctx.check(okb, inst, "the recursive bisection helper no longer has the checked shape: %s" % whyb, None, detail="bisection as recursion: high - low strictly decreases (C14.R5)")
+            continue
         carriers = set()
         for p in comp:
             r = F.bodies[p].raw
